@@ -27,6 +27,11 @@ RULE = (
     "distinct = (thread count, configuration, round, interleaving signature); non-trivial = a round during which at "
     "least one switch to another thread occurred."
 )
+RULE += (
+    " Every round also runs a 'redirty' phase: each thread dirties the shared deduplication key three times "
+    "with yields in between, while the other threads have the same call in flight; its second request must "
+    "return its own in-flight task and its body runs exactly three times."
+)
 ASSUMPTIONS = [
     "OS thread interleavings are sampled (tiny switch interval, injected yields, repetition), not enumerated",
     "ThreadSanitizer / helgrind are not applicable to CPython-level logical state under the GIL (DESIGN.md section 6)",
